@@ -47,9 +47,9 @@ def run(tier):
         basic, _ = gen.enumerate_blocks(gen.rule_vocab(gen.C9), gen.RULE_SHAPES_BASIC, 3)
         ctx, _ = gen.enumerate_blocks(gen.rule_vocab(gen.C5), gen.RULE_SHAPES_CTX, 3)
         chain, _ = gen.enumerate_blocks(gen.rule_vocab(gen.C3), gen.RULE_SHAPES_CHAIN, 3)
-        blocks = basic + ctx + chain + const_blocks(V13)
+        blocks = basic + ctx + const_blocks(V13)
         wc = [("WordsCheck1.cfg", "8-bit"), ("WordsCheck2.cfg", "16-bit")]
-        pairs = []
+        pairs = chain            # chains of up to three operators: rules on only, validated where a rule fired
     hand = corpus.hand_blocks()
     cmds = [{"cmd": "sfs", "text": t} for t in hand + blocks]
     # (M) the oracle is checked before it is believed
